@@ -436,7 +436,7 @@ func (fr *Frame) materialise(l *LVal, st *State) Term {
 	p := c.newRef("addr") // a temporary object standing for the addressed location
 	// copy-in
 	cur := fr.read(l, st)
-	if arr, ok := l.typ.Underlying().(*types.Array); ok {
+	if arr, ok := under(l.typ).(*types.Array); ok {
 		k := c.regElem(c.sortOf(arr.Elem()))
 		st.set(k, sto(c.get(st, k), p, cur))
 	} else {
@@ -450,7 +450,7 @@ func (fr *Frame) materialise(l *LVal, st *State) Term {
 func (fr *Frame) copyOut(l *LVal, p Term, st *State) {
 	c := fr.c
 	var v Term
-	if arr, ok := l.typ.Underlying().(*types.Array); ok {
+	if arr, ok := under(l.typ).(*types.Array); ok {
 		k := c.regElem(c.sortOf(arr.Elem()))
 		v = sel(c.get(st, k), p, arraySort(c.sc.idxSort(), c.sortOf(arr.Elem())))
 	} else {
@@ -467,11 +467,11 @@ func (c *FuncCtx) globalLVal(g *ssa.Global) *LVal {
 	constant := !c.v.globalAssigned[g]
 	_, known := c.keys[key]
 	c.registerKey(key, c.sortOf(elem), constant)
-	if _, isFn := elem.Underlying().(*types.Signature); !known && constant && c.v.globalInitNonNil(g.Pkg.Pkg.Path(), g.Name()) && (isFn || !c.v.globalInitIsRef(g.Pkg.Pkg.Path(), g.Name())) {
+	if _, isFn := under(elem).(*types.Signature); !known && constant && c.v.globalInitNonNil(g.Pkg.Pkg.Path(), g.Name()) && (isFn || !c.v.globalInitIsRef(g.Pkg.Pkg.Path(), g.Name())) {
 		// initialised with a non-nil value and never assigned again
 		init := c.initVal(key, c.sortOf(elem), &Base{id: 0})
 		c.constGlobals[key] = init
-		switch elem.Underlying().(type) {
+		switch under(elem).(type) {
 		case *types.Interface:
 			c.sc.assume(not(eq(ifTag(init), Term{"0", SInt})))
 		case *types.Pointer, *types.Map:
@@ -489,7 +489,7 @@ func (fr *Frame) addrOf(v ssa.Value, st *State) *LVal {
 	if r.L != nil {
 		return r.L
 	}
-	pt, ok := v.Type().Underlying().(*types.Pointer)
+	pt, ok := under(v.Type()).(*types.Pointer)
 	if !ok {
 		panic("addrOf on non-pointer " + v.Type().String())
 	}
@@ -497,7 +497,7 @@ func (fr *Frame) addrOf(v ssa.Value, st *State) *LVal {
 }
 
 func (c *FuncCtx) ptrLVal(p Term, elem types.Type) *LVal {
-	if arr, ok := elem.Underlying().(*types.Array); ok {
+	if arr, ok := under(elem).(*types.Array); ok {
 		return &LVal{kind: rkElems, ref: p, rootT: arr.Elem(), typ: elem}
 	}
 	return &LVal{kind: rkHeap, ref: p, rootT: elem, typ: elem}
@@ -540,7 +540,7 @@ func (fr *Frame) read(l *LVal, st *State) Term {
 	for _, s := range l.path {
 		if s.idx != nil {
 			var es Sort
-			if arr, ok := s.inT.Underlying().(*types.Array); ok && !s.isElem {
+			if arr, ok := under(s.inT).(*types.Array); ok && !s.isElem {
 				es = c.sortOf(arr.Elem())
 			} else {
 				es = c.sortOf(s.inT) // elems root: inT is the element type
@@ -570,7 +570,7 @@ func (fr *Frame) upd(cur Term, path []pathStep, nv Term) Term {
 	s := path[0]
 	if s.idx != nil {
 		var es Sort
-		if arr, ok := s.inT.Underlying().(*types.Array); ok && !s.isElem {
+		if arr, ok := under(s.inT).(*types.Array); ok && !s.isElem {
 			es = c.sortOf(arr.Elem())
 		} else {
 			es = c.sortOf(s.inT)
@@ -608,7 +608,7 @@ func (c *FuncCtx) constTerm(k *ssa.Const) Term {
 	if k.Value == nil {
 		return c.zero(t)
 	}
-	switch u := t.Underlying().(type) {
+	switch u := under(t).(type) {
 	case *types.Basic:
 		switch {
 		case u.Info()&types.IsBoolean != 0:
@@ -644,13 +644,13 @@ func (c *FuncCtx) freshOfType(label string, t types.Type) Term {
 }
 
 func (c *FuncCtx) wellFormed(v Term, t types.Type) {
-	if _, ok := t.Underlying().(*types.Struct); ok {
+	if _, ok := under(t).(*types.Struct); ok {
 		if w := c.wfTerm(v, t); w.S != "true" {
 			c.assumeG(w)
 		}
 		return
 	}
-	switch u := t.Underlying().(type) {
+	switch u := under(t).(type) {
 	case *types.Slice:
 		c.assumeG(c.sliceWF(v))
 	case *types.Basic:
@@ -741,11 +741,11 @@ func (c *FuncCtx) noteRef(key string, t Term) {
 
 // noteValueRefs records the references directly contained in a value of type t.
 func (c *FuncCtx) noteValueRefs(v Term, t types.Type) {
-	switch u := t.Underlying().(type) {
+	switch u := under(t).(type) {
 	case *types.Slice:
 		c.noteRef(elemKey(c.sortOf(u.Elem())), slPtr(v))
 	case *types.Pointer:
-		if arr, ok := u.Elem().Underlying().(*types.Array); ok {
+		if arr, ok := under(u.Elem()).(*types.Array); ok {
 			c.noteRef(elemKey(c.sortOf(arr.Elem())), v)
 		} else {
 			c.noteRef(heapKey(c.sortOf(u.Elem())), v)
@@ -756,7 +756,7 @@ func (c *FuncCtx) noteValueRefs(v Term, t types.Type) {
 		}
 		c.wfDepth++
 		for i := 0; i < u.NumFields(); i++ {
-			switch u.Field(i).Type().Underlying().(type) {
+			switch under(u.Field(i).Type()).(type) {
 			case *types.Slice, *types.Pointer:
 				c.noteValueRefs(c.fieldSel(v, t, i), u.Field(i).Type())
 			}
@@ -1312,7 +1312,7 @@ func (fr *Frame) havocLoop(l *loop, st *State) []string {
 			case *ssa.Store:
 				fr.havocTarget(x.Addr, cells, heaps)
 			case *ssa.MapUpdate:
-				if mt, ok := x.Map.Type().Underlying().(*types.Map); ok {
+				if mt, ok := under(x.Map.Type()).(*types.Map); ok {
 					dk, vk := c.regMap(c.sortOf(mt.Key()), c.sortOf(mt.Elem()))
 					heaps[dk], heaps[vk] = true, true
 				}
@@ -1321,7 +1321,7 @@ func (fr *Frame) havocLoop(l *loop, st *State) []string {
 				if bi, ok := com.Value.(*ssa.Builtin); ok {
 					switch bi.Name() {
 					case "append", "copy":
-						if sl, ok := com.Args[0].Type().Underlying().(*types.Slice); ok {
+						if sl, ok := under(com.Args[0].Type()).(*types.Slice); ok {
 							heaps[c.regElem(c.sortOf(sl.Elem()))] = true
 						}
 					case "delete", "clear":
@@ -1423,7 +1423,7 @@ func (fr *Frame) wfKey(k string, st *State) {
 
 func (fr *Frame) havocTarget(addr ssa.Value, cells map[string]Sort, heaps map[string]bool) {
 	c := fr.c
-	pt, ok := addr.Type().Underlying().(*types.Pointer)
+	pt, ok := under(addr.Type()).(*types.Pointer)
 	if !ok {
 		return
 	}
@@ -1437,13 +1437,13 @@ func (fr *Frame) havocTarget(addr ssa.Value, cells map[string]Sort, heaps map[st
 			root = x.X
 			continue
 		case *ssa.IndexAddr:
-			if _, isPtr := x.X.Type().Underlying().(*types.Pointer); isPtr {
+			if _, isPtr := under(x.X.Type()).(*types.Pointer); isPtr {
 				last = x
 				root = x.X
 				continue
 			}
 			// slice element
-			if sl, ok := x.X.Type().Underlying().(*types.Slice); ok {
+			if sl, ok := under(x.X.Type()).(*types.Slice); ok {
 				heaps[c.regElem(c.sortOf(sl.Elem()))] = true
 			}
 			return
@@ -1474,11 +1474,11 @@ func (fr *Frame) havocTarget(addr ssa.Value, cells map[string]Sort, heaps map[st
 		}
 		return
 	}
-	rpt, ok := root.Type().Underlying().(*types.Pointer)
+	rpt, ok := under(root.Type()).(*types.Pointer)
 	if !ok {
 		rpt = pt
 	}
-	if arr, ok := rpt.Elem().Underlying().(*types.Array); ok {
+	if arr, ok := under(rpt.Elem()).(*types.Array); ok {
 		heaps[c.regElem(c.sortOf(arr.Elem()))] = true
 	} else {
 		heaps[c.regHeap(c.sortOf(rpt.Elem()))] = true
